@@ -354,7 +354,8 @@ def workload(ctx, repo):
     for k in range(n):
         mode = rng.choice(R.MODES) if rng.random() < 0.6 else "gregorian"
         integral = rng.random() < 0.6
-        p = gen.rand_tp(rng, mode, integral=integral)
+        p = gen.rand_tp(rng, mode, integral=integral,
+                        year=gen.huge_year(rng) if k % 40 == 7 else None)
         d = gen.rand_exact_dur(rng, integral=integral, big=(k % 10 == 0))
         case = {"op": rng.choice(("add", "sub", "radd")), "mode": mode,
                 "p": p, "d": d}
